@@ -5,11 +5,17 @@ import (
 	"context"
 	"encoding/json"
 	"fmt"
+	"github.com/aml-org/amf-custom-validator/internal/parser/profile"
+	"github.com/aml-org/amf-custom-validator/internal/validator"
 	"github.com/aml-org/amf-custom-validator/pkg/events"
+	"github.com/aml-org/amf-custom-validator/verifh/sx"
 	"math/rand"
 	"os"
 	"os/exec"
 	"path/filepath"
+	"regexp"
+	"sort"
+	"strconv"
 	"strings"
 	"sync"
 	"sync/atomic"
@@ -232,8 +238,9 @@ func C10Load(seed int64, rounds int) {
 		}(w)
 	}
 	wg.Wait()
-	// aligned rounds: the listener of every call holds its stage-start event until all 8 calls have reached the same
-	// stage, so the 8 calls enter that stage together (only the public event channel is used to steer them)
+	// aligned rounds: the listener of every call stops receiving after the event that precedes a stage until all 8 calls are
+	// inside the send of that stage's start event, so the 8 calls enter the stage together (only the public event channel is
+	// used to steer them)
 	aligned := func(stage events.EventType, call func(w int, ch *chan events.Event) (string, error)) []string {
 		return alignedCalls(stage, 8, call)
 	}
@@ -258,15 +265,15 @@ func C10Load(seed int64, rounds int) {
 		}
 		largeAlone = append(largeAlone, o)
 	}
-	// cold rounds: 8 calls submit the SAME profile text, one the process has never seen (a fresh comment), and enter Rego
-	// generation together; the profile has 40 sibling constraints and 10 alternatives written in descending order
+	// cold rounds: 8 calls submit the SAME profile text, one the process has never seen (a fresh comment); each is started when
+	// the one before has parsed it and stands before Rego generation, then all enter Rego generation together; the profile has 40 sibling constraints and 10 alternatives written in descending order
 	coldAlone, err := pkg.ValidateWithConfiguration(coldProfile(40, "reference"), things, false, nil, clockA, configs[0])
 	if err != nil {
 		coldAlone = "error: " + err.Error()
 	}
 	for round := 0; round < rounds/2+2; round++ {
 		coldText := coldProfile(40, fmt.Sprintf("cold round %d", round))
-		couts := aligned(events.RegoGenerationStart, func(w int, ch *chan events.Event) (string, error) {
+		couts := startedThenStaggered(events.ProfileParsingDone, 10*time.Second, 8, []time.Duration{0, 20 * time.Microsecond, 100 * time.Microsecond, 400 * time.Microsecond}[round%4], func(w int, ch *chan events.Event) (string, error) {
 			return pkg.ValidateWithConfiguration(coldText, things, false, ch, clockA, configs[0])
 		})
 		for _, o := range couts {
@@ -277,7 +284,7 @@ func C10Load(seed int64, rounds int) {
 		if o, err := pkg.ValidateWithConfiguration(coldText, things, false, nil, clockA, configs[0]); (err != nil || o != coldAlone) && len(mism) < 8 {
 			mism = append(mism, mismatch{c10job{Kind: fmt.Sprintf("validate-text alone, the profile text that 8 calls submitted together in cold round %d", round), Profile: -100, Data: 2}, coldAlone, o})
 		}
-		outs := aligned(events.RegoGenerationStart, func(w int, ch *chan events.Event) (string, error) {
+		outs := aligned(events.ProfileParsingDone, func(w int, ch *chan events.Event) (string, error) {
 			return pkg.ValidateWithConfiguration(genProfiles[w], things, false, ch, clockA, configs[0])
 		})
 		for w, o := range outs {
@@ -285,7 +292,7 @@ func C10Load(seed int64, rounds int) {
 				mism = append(mism, mismatch{c10job{Kind: fmt.Sprintf("validate-text, 8 calls entering Rego generation together (profile: %d validations of the multi family)", 3+w), Profile: -1 - (3 + w), Data: 2}, genAlone[w], o})
 			}
 		}
-		outs = aligned(events.InputDataNormalizationStart, func(w int, ch *chan events.Event) (string, error) {
+		outs = aligned(events.InputDataParsingDone, func(w int, ch *chan events.Event) (string, error) {
 			return pkg.ValidateCompiledWithConfiguration(shared[0], datas[5+(w+round)%2], false, ch, clockA, configs[0])
 		})
 		for w, o := range outs {
@@ -312,18 +319,87 @@ func C10Load(seed int64, rounds int) {
 			mism = append(mism, mismatch{j2, want, got})
 		}
 	}
+	// the numbers in the generated names (gen_<hint>_<n>) of modules generated at the same moment: C10_numbers_disjoint /
+	// C10_unique say, for every schedule, that no number is handed to two calls and none twice to one call - so no number
+	// appears in two of the modules, and within a module a number belongs to one name only
+	reGen := regexp.MustCompile(`\bgen_([A-Za-z_]+?)_(\d+)\b`)
+	for round := 0; round < 3 && len(mism) < 8; round++ {
+		units := alignedCalls(events.ProfileParsingDone, 6, func(w int, ch *chan events.Event) (string, error) {
+			u, err := validator.GenerateRego(c10Multi(2+w+round), false, ch)
+			close(*ch)
+			if err != nil || u == nil {
+				return "", err
+			}
+			return u.Code, nil
+		})
+		owner := map[string]int{}
+		for w, code := range units {
+			nameOf := map[string]string{}
+			for _, m := range reGen.FindAllStringSubmatch(code, -1) {
+				if prev, ok := nameOf[m[2]]; ok && prev != m[1] && len(mism) < 8 {
+					mism = append(mism, mismatch{c10job{Kind: fmt.Sprintf("generate, 6 profiles entering Rego generation together: in the module of profile multi(%d) the number %s is part of two generated names (gen_%s_%s and gen_%s_%s)", 2+w+round, m[2], prev, m[2], m[1], m[2]), Profile: -1 - (2 + w + round), Data: 2}, "every generated name of a module carries a number of its own", "gen_" + prev + "_" + m[2] + " and gen_" + m[1] + "_" + m[2]})
+				}
+				nameOf[m[2]] = m[1]
+			}
+			for n := range nameOf {
+				if o, ok := owner[n]; ok && o != w && len(mism) < 8 {
+					mism = append(mism, mismatch{c10job{Kind: fmt.Sprintf("generate, 6 profiles entering Rego generation together: the number %s is in the generated names of two modules (profiles multi(%d) and multi(%d))", n, 2+o+round, 2+w+round), Profile: -1 - (2 + w + round), Data: 2}, "no number is handed to two compilations", "number " + n + " in both modules"})
+				}
+				owner[n] = w
+			}
+		}
+	}
+	// three generations steered to run one after the other in a chosen order (each call is started when the one before is held
+	// inside the send of its RegoGenerationStart event, then they are released one by one): the numbers found in each module go to the parent,
+	// which compares them with Interleave.handed for that schedule
+	steered := []map[string]any{}
+	for _, order := range [][]int{{0, 1, 2}, {2, 0, 1}, {1, 2, 0}} {
+		n0 := 0
+		fmt.Sscanf(strings.TrimPrefix(profileGenvar("probe"), "gen_probe_"), "%d", &n0)
+		codes := startedThenSerial(events.ProfileParsingDone, 5*time.Second, []int{0, 1, 2}, order, []func(ch *chan events.Event) (string, error){
+			func(ch *chan events.Event) (string, error) { return genCode(c10Multi(3), ch) },
+			func(ch *chan events.Event) (string, error) { return genCode(c10Multi(5), ch) },
+			func(ch *chan events.Event) (string, error) { return genCode(coldProfile(6, "steered"), ch) },
+		})
+		nums := [][]int{}
+		for _, code := range codes {
+			seen := map[int]bool{}
+			l := []int{}
+			for _, m := range reGen.FindAllStringSubmatch(code, -1) {
+				n, _ := strconv.Atoi(m[2])
+				if !seen[n] {
+					seen[n] = true
+					l = append(l, n)
+				}
+			}
+			sort.Ints(l)
+			nums = append(nums, l)
+		}
+		steered = append(steered, map[string]any{"counter_before": n0, "release_order": order, "numbers": nums})
+	}
 	// the two profiles that share a prefix name, alone at the end: the parent compares these with a fresh process's reports
 	prefixAlone := map[string]string{}
 	for _, pi := range []int{5, 6} {
 		prefixAlone[fmt.Sprint(pi)] = solo(c10job{Kind: "validate-text", Profile: pi, Data: 9, Config: 0})
 	}
-	out, _ := json.Marshal(map[string]any{"jobs": len(jobs), "distinct_jobs": len(alone), "mismatches": mism, "prefix_alone": prefixAlone})
+	out, _ := json.Marshal(map[string]any{"jobs": len(jobs), "distinct_jobs": len(alone), "mismatches": mism, "prefix_alone": prefixAlone, "steered": steered})
 	fmt.Println(string(out))
+}
+
+func profileGenvar(hint string) string { return profile.Genvar(hint) }
+
+func genCode(p string, ch *chan events.Event) (string, error) {
+	u, err := validator.GenerateRego(p, false, ch)
+	close(*ch)
+	if err != nil || u == nil {
+		return "", err
+	}
+	return u.Code, nil
 }
 
 func C10(e *core.Env) {
 	res := e.Res
-	res.Rule = "cases = concurrent calls: 8 goroutines x rounds of jobs drawn from {CompileProfile+ValidateCompiled, ValidateWithConfiguration from text, ValidateCompiledWithConfiguration sharing ONE compiled profile} x 8 profiles (one of which fails in code generation, two that use the prefix name `core` for different namespaces - their answers alone in the loaded process are compared with a fresh process's) x 10 documents (incl. two that @import one context file, unreadable, and two documents larger than 64 KiB over the same node ids, one conforming and one not) x 3 report configurations with different schema IRIs, in a -race build of the harness; every returned report / error is compared byte-wise (fixed clock) with what the same call returns when it runs alone, and every distinct call is repeated alone after the concurrent phase; aligned rounds: 8 calls whose listeners hold the stage-start event until all have reached it enter Rego generation together (8 different profiles; and 8 calls submitting ONE profile text new to the process, with 40 sibling constraints and 10 alternatives in descending order) and enter normalisation together (two large documents), each compared with the call alone, followed by the same calls alone; any data race reported by the race detector is a violation; " +
+	res.Rule = "cases = concurrent calls: 8 goroutines x rounds of jobs drawn from {CompileProfile+ValidateCompiled, ValidateWithConfiguration from text, ValidateCompiledWithConfiguration sharing ONE compiled profile} x 8 profiles (one of which fails in code generation, two that use the prefix name `core` for different namespaces - their answers alone in the loaded process are compared with a fresh process's) x 10 documents (incl. two that @import one context file, unreadable, and two documents larger than 64 KiB over the same node ids, one conforming and one not) x 3 report configurations with different schema IRIs, in a -race build of the harness; every returned report / error is compared byte-wise (fixed clock) with what the same call returns when it runs alone, and every distinct call is repeated alone after the concurrent phase; aligned rounds: 8 calls whose listeners stop receiving after the preceding event until all are inside the send of the stage-start event enter Rego generation together (8 different profiles; and 8 calls submitting ONE profile text new to the process, with 40 sibling constraints and 10 alternatives in descending order, parsed one after the other and generated together or 20 - 400 us apart) and enter normalisation together (two large documents), each compared with the call alone, followed by the same calls alone; three generations steered to run one after the other in three orders: the numbers in each module are among those Interleave.handed gives that call for the schedule; 6 modules generated together: no number of a generated name in two modules, none in two names of one module (what C10_unique / C10_numbers_disjoint state for every schedule); any data race reported by the race detector is a violation; " +
 		"non-trivial = the job compiles a profile or uses a non-default configuration; distinct by (kind, profile, data, configuration)"
 	raceBin := filepath.Join(e.Scratch, "verifh-race")
 	cmd := exec.Command("go", "build", "-race", "-o", raceBin, "./cmd/verifh")
@@ -353,7 +429,12 @@ func C10(e *core.Env) {
 			DistinctN      int      `json:"distinct_jobs"`
 			Fatal          string
 			PrefixAlone    map[string]string `json:"prefix_alone"`
-			Mismatches     []struct {
+			Steered        []struct {
+				CounterBefore int     `json:"counter_before"`
+				ReleaseOrder  []int   `json:"release_order"`
+				Numbers       [][]int `json:"numbers"`
+			} `json:"steered"`
+			Mismatches []struct {
 				Job        c10job
 				Alone, Got string
 			}
@@ -398,6 +479,55 @@ func C10(e *core.Env) {
 			res.Violate("impl-violates-property", "a concurrent "+m.Job.Kind+" call returns something else than the same call alone",
 				map[string]any{"job": m.Job, "profile": ptext, "data": core.Trunc(datas[m.Job.Data], 3000), "configuration": fmt.Sprintf("%+v", configs[m.Job.Config]),
 					"alone": core.Trunc(m.Alone, 2500), "concurrent": core.Trunc(m.Got, 2500), "first_difference": firstDiff(m.Alone, m.Got), "seed": e.Seed + int64(run), "rounds": rounds})
+		}
+		// steered generations against the model: the schedule is "all the Genvar calls of the first released call, then all of the
+		// second, then all of the third" (as many calls each as the largest number of its module says); Interleave.handed gives
+		// the numbers each call is handed - every number found in a module must be one of them
+		for si, st := range result.Steered {
+			steps := []sx.V{}
+			prev := st.CounterBefore
+			okShape := len(st.Numbers) == 3 && len(st.ReleaseOrder) == 3
+			for _, t := range st.ReleaseOrder {
+				if !okShape || len(st.Numbers[t]) == 0 {
+					okShape = false
+					break
+				}
+				top := st.Numbers[t][len(st.Numbers[t])-1]
+				for k := prev; k < top; k++ {
+					steps = append(steps, sx.L(sx.I(t), sx.A("gen")))
+				}
+				if top > prev {
+					prev = top
+				}
+			}
+			replay := map[string]any{"counter_before": st.CounterBefore, "release_order": st.ReleaseOrder, "numbers_found_in_each_module": st.Numbers,
+				"how": "verifh c10load: three GenerateRego calls held inside the send of RegoGenerationStart and released one after the other in this order; profiles multi(3), multi(5), coldProfile(6)"}
+			if !okShape {
+				res.Violate("impl-violates-property", "a generation steered to run after another one produced a module without generated names", replay)
+				continue
+			}
+			for t := 0; t < 3; t++ {
+				ans, derr := e.Driver.Eval(sx.L(sx.A("c10"), sx.A("handed"), sx.I(st.CounterBefore), sx.I(t), sx.L(steps...)))
+				if derr != nil {
+					res.Violate("harness-error", derr.Error(), map[string]any{"no_failing_input_found": true, "broken": "driver"})
+					break
+				}
+				model := map[int]bool{}
+				for _, a := range ans.List {
+					n, _ := strconv.Atoi(a.Atom)
+					model[n] = true
+				}
+				for _, n := range st.Numbers[t] {
+					if !model[n] {
+						replay["call"] = t
+						replay["number_not_handed_to_this_call_by_the_model"] = n
+						replay["model_handed"] = ans.String()
+						res.Violate("impl-violates-property", fmt.Sprintf("generations run one after the other: the module of call %d carries the number %d, which the counter handed to another call (or before the calls began)", t, n), replay)
+						break
+					}
+				}
+			}
+			res.Case(fmt.Sprintf("steered-generations|run%d|%d", run, si), true)
 		}
 		// the profiles that share a prefix name: what the loaded process answers for each, alone, equals a fresh process's answer
 		for _, pi := range []int{5, 6} {
